@@ -62,6 +62,12 @@ def impl_read(case):
         tag = 'read:ok'
         if not all(m.type == 'sysex' for m in ms):
             fail = ('non-sysex-returned', 'read of %r returned %r' % (bytes(case), ms))
+        elif case and case[0] != 0xf0:
+            # plain text: every byte is a 2-digit hex number, so every maximal run of hex digits has even length
+            import re
+            txt = bytes(case).decode('latin1')
+            if any(len(run) % 2 for run in re.findall(r'[0-9A-Fa-f]+', txt)):
+                fail = ('odd-hex-run-accepted', 'the text %r holds a byte that is not a 2-digit hex number but was read as %r' % (txt[:80], ms[:3]))
     except ValueError:
         out = [-1, 1]
         tag = 'read:ValueError'
@@ -90,9 +96,21 @@ def layout_text(rng, bs, bad=False):
         h = '%02X' % b if rng.random() < 0.7 else '%02x' % b
         t += h + rng.choice(WS) * rng.randrange(0, 3)
     if bad:
-        k = rng.randrange(5)
-        pos = rng.randrange(len(t) + 1)
-        t = t[:pos] + ['g', '0', 'F0F', ',', '0x'][k] + t[pos:]
+        k = rng.randrange(7)
+        if k >= 5 and len(bs) >= 2:
+            # the two digits of one byte (k == 5), or of two neighbouring bytes (k == 6), pulled apart by whitespace: 'F0 0 1 F7', 'F0 1 2 F7'
+            toks = ['%02X' % b for b in bs]
+            j = rng.randrange(len(toks) - 1)
+            w = rng.choice([' ', '\n', '\t', '  '])
+            if k == 5:
+                toks[j] = toks[j][0] + w + toks[j][1]
+            else:
+                toks[j] = toks[j][1]; toks[j + 1] = toks[j + 1][1]
+            t = ' '.join(toks)
+        else:
+            k = k % 5
+            pos = rng.randrange(len(t) + 1)
+            t = t[:pos] + ['g', '0', 'F0F', ',', '0x'][k] + t[pos:]
     return [ord(c) for c in t]
 
 
@@ -129,6 +147,13 @@ def run(out):
                 rcases.append(layout_text(rng, bs, bad=True))         # malformed text
         rcases += [[], [0x20], [0x0a], [0xf0], [0xf0, 0xf7], [0x46, 0x30], [0x46], [0xf7], list(b'F0 F7'), list(b'F0 01 F7\n\n'), list(b'zz'),
                    list(b'F0 0 F7'), [0xa0] + list(b'F0F7'), list('ðF0'.encode('latin1'))]
+        rcases += [list(b'F0 1 2 F7'), list(b'F0 01 0\n2 F7'), list(b'F 0 F7'), list(b'F0 0 1 F7 '), list(b'F0 0\t1 F7'), list(b'F0  1  2  3  4 F7')]
+        # very many messages in one file (nothing may be dropped), both formats
+        for count in ([4097, 5000] if out.tier == 'quick' else [4095, 4096, 4097, 5000, 8193, 20000]):
+            wcases.append([0, count] + [7, 1, 5] * count)
+            wcases.append([1, count] + [7, 1, 6] * count)
+            rcases.append([0xf0, 5, 0xf7] * count)
+            rcases.append(list(b'F0 06 F7\n' * count))
         jobs = pc.chunk_jobs(wcases, 'write', COMP_WRITE, 8) + pc.chunk_jobs(rcases, 'read', COMP_READ, 8)
         jobs = [(t, c) for t, _, c in jobs]
         for tag, rec in core.pmap(job, jobs):
